@@ -104,6 +104,11 @@ class DictProxy(dict):
         super().__setitem__(key, value)
 
     def _ref_path(self, key: str) -> str:
+        # the owning configuration knows where it lives (parent chain, index in a list of
+        # configurations); the field alone only knows its place in the schema
+        owner_path = getattr(self.cfg, "_ref_path", None)
+        if isinstance(owner_path, str) and owner_path:
+            return "%s.%s[%s]" % (owner_path, self.dict_field._key, key)
         return "%s[%s]" % (self.dict_field._ref_path, key)
 
     def _validate(self, key: Any, value: Any) -> Tuple[Any, Any]:
